@@ -152,6 +152,11 @@ def segy_source(draw, geom="regular", max_dim=12, max_ns=40, fields=True, allow_
                 while any(start + step * i == 0 for i in range(d["n_il"])):
                     start -= 1
                 d["il"] = [start, step]
+            elif draw(st.integers(0, 5)) == 0:
+                # six- and seven-digit line numbering (labels of 1e5 .. 4e6, where a tolerance-based or float32
+                # label lookup starts to confuse neighbouring lines)
+                d["il"] = [draw(st.integers(100_000, 4_000_000)), d["il"][1]]
+                d["xl"] = [draw(st.integers(100_000, 4_000_000)), d["xl"][1]]
             corner0 = draw(st.integers(0, 7)) == 0
             if dims is None and not corner0 and draw(st.integers(0, 7)) == 0:
                 # more than 128 grid cells, at most 128 traces: a footer array (4 bytes per grid cell) and
